@@ -116,6 +116,28 @@ def gen_superblock_case(rng, tier):
     return case_line("compress2", kind, size, rng.randint(1, 99999), 0, "none", p)
 
 
+def gen_splitter_case(rng, tier):
+    """block splitter (post-splitter of btopt and above, or forced on) over blocks one partition of which ends up raw, with repeat codes behind it"""
+    if rng.random() < 0.6:
+        p = {100: rng.choice([13, 14, 15, 16, 17, 19])}
+    else:
+        p = {100: rng.choice([1, 3, 5, 7, 9, 12]), 1010: 1}
+        if rng.random() < 0.5:
+            p[107] = rng.choice([3, 4, 5, 6])
+    if rng.random() < 0.3:
+        p[201] = 1
+    if rng.random() < 0.2:
+        p[101] = rng.choice([17, 18, 20])
+    kind = rng.choice(["rawpart", "rawpart", "rawpart", "tworegime", "straddle"])
+    size = rng.choice([140000, 151072, 270000, 400000])
+    if p[100] >= 16:
+        size = min(size, 151072)
+    api = rng.choice(["compress2", "compress2", "stream", "compress"])
+    if api == "compress":
+        p = {100: p[100]}
+    return case_line(api, kind, size, rng.randint(1, 99999), 0, "none", p)
+
+
 def run_cases(ck, exe, name, cases, per_batch=60):
     od = ck.outdir
     nev = 0
